@@ -1427,8 +1427,12 @@ def m_rc_deref(ex, st, call):
 
 @model(r'^<.* as Into<JsString>>::into$|^<JsString as From<.*>>::from$|^JsString::from$|^JsString::new$')
 def m_into_jsstring(ex, st, call):
-    ex.models_used.add('conversion into JsString -> opaque string token')
-    return ex.ret(st, call, Opaque('JsString'))
+    ex.models_used.add('conversion into JsString -> string token carrying the same content')
+    tok = Opaque('JsString')
+    src = deref2(ex, st, call.args[0]) if call.args else None
+    if isinstance(src, Str):
+        st.extra[('jsstr', str(tok.id))] = src
+    return ex.ret(st, call, tok)
 
 
 @model(r'^<.* as Iterator>::map$|^<.* as Iterator>::filter$|^<.* as Iterator>::cloned$|^<.* as Iterator>::copied$|^<.* as Iterator>::filter_map$|^<.* as Iterator>::rev$|^<.* as Iterator>::skip$|^<.* as Iterator>::take$')
@@ -2285,3 +2289,72 @@ def m_checked_mul(ex, st, call):
     wide = z3.ZeroExt(w, a.e) * z3.ZeroExt(w, b.e)
     ov = z3.Extract(2 * w - 1, w, wide) != 0
     return ex.ret(st, call, ex.option_ite(z3.Not(ov), Int(z3.Extract(w - 1, 0, wide), False)))
+
+
+# ------------------------------------------------------------------------------------------------
+# orderings
+# ------------------------------------------------------------------------------------------------
+def ordering_value(lt, eq):
+    """EnumV Ordering from z3 Bools (variant indices: Less=0, Equal=1, Greater=2)"""
+    d = z3.If(lt, z3.BitVecVal(0, 64), z3.If(eq, z3.BitVecVal(1, 64), z3.BitVecVal(2, 64)))
+    return EnumV('Ordering', d, {})
+
+
+@model(r'^<f64 as PartialOrd>::partial_cmp$|^f64::partial_cmp$')
+def m_f64_partial_cmp(ex, st, call):
+    a = deref(ex, st, call.args[0])
+    b = deref(ex, st, call.args[1])
+    if not (isinstance(a, Float) and isinstance(b, Float)):
+        return None
+    nan = z3.Or(z3.fpIsNaN(a.e), z3.fpIsNaN(b.e))
+    o = ordering_value(z3.fpLT(a.e, b.e), z3.fpEQ(a.e, b.e))
+    return ex.ret(st, call, EnumV('Option<Ordering>', z3.If(nan, z3.BitVecVal(0, 64), z3.BitVecVal(1, 64)), {1: {0: o}}))
+
+
+@model(r'^f64::total_cmp$')
+def m_f64_total_cmp(ex, st, call):
+    return None
+
+
+@model(r'^str::encode_utf16$')
+def m_encode_utf16(ex, st, call):
+    s = deref(ex, st, call.args[0])
+    if isinstance(s, Str):
+        return ex.ret(st, call, Agg('iter', 'Utf16', {0: s}))
+    return None
+
+
+def _lex_lt(a, b):
+    res = None
+    m = min(a.cap, b.cap)
+    res = z3.ULT(a.n, b.n)
+    for i in reversed(range(m)):
+        both = z3.And(z3.ULT(bv(i), a.n), z3.ULT(bv(i), b.n))
+        res = z3.If(both, z3.If(a.bytes[i] == b.bytes[i], res, z3.ULT(a.bytes[i], b.bytes[i])),
+                    z3.And(z3.UGE(bv(i), a.n), z3.ULT(bv(i), b.n)))
+    return res
+
+
+@model(r'^<EncodeUtf16 as Iterator>::cmp$|^<EncodeUtf16<.*> as Iterator>::cmp$|^<str as Ord>::cmp$|^<String as Ord>::cmp$|^<&str as Ord>::cmp$|^<Bytes as Iterator>::cmp$|^<Chars as Iterator>::cmp$')
+def m_str_cmp(ex, st, call):
+    a = deref2(ex, st, call.args[0])
+    b = deref2(ex, st, call.args[1])
+    if isinstance(a, Agg) and a.kind == 'iter' and isinstance(a.fields.get(0), Str):
+        a = a.fields[0]
+    if isinstance(b, Agg) and b.kind == 'iter' and isinstance(b.fields.get(0), Str):
+        b = b.fields[0]
+    if isinstance(a, Str) and isinstance(b, Str):
+        ex.models_used.add('lexicographic comparison of bounded ASCII strings (UTF-16 code-unit order = byte order for ASCII)')
+        return ex.ret(st, call, ordering_value(_lex_lt(a, b), s_eq(a, b)))
+    return None
+
+
+@model(r'^<(u8|u16|u32|u64|usize|i32|i64) as Ord>::cmp$|^<(u8|u16|u32|u64|usize|i32|i64) as PartialOrd>::partial_cmp$')
+def m_int_cmp(ex, st, call):
+    a = deref(ex, st, call.args[0])
+    b = deref(ex, st, call.args[1])
+    lt = (a.e < b.e) if a.signed else z3.ULT(a.e, b.e)
+    o = ordering_value(lt, a.e == b.e)
+    if call.norm.endswith('partial_cmp'):
+        return ex.ret(st, call, ex.some(o))
+    return ex.ret(st, call, o)
